@@ -415,7 +415,9 @@ def parseWheelTags (name : List Char) : Except WheelErr (List (List Char) × Lis
     else
       let parts := splitC '-' body
       match parts.reverse with
-      | plat :: abi :: py :: _ => .ok (splitC '.' py, splitC '.' abi, splitC '.' plat)
+      -- the `fix:` for D31: tags are lower-cased, as packaging.tags.Tag does (ASCII: tags are alphanumeric)
+      | plat :: abi :: py :: _ =>
+        .ok (splitC '.' (py.map Char.toLower), splitC '.' (abi.map Char.toLower), splitC '.' (plat.map Char.toLower))
       | _ => .error .badPartCount
 
 end DepLogic
